@@ -508,6 +508,8 @@ def div(a, b):
                 c.safety('division by the constant zero', FALSE)
             raise ZeroDivisionError("division by constant zero in symbolic execution")
         return mul(a, SR.const(1 / b.extra))
+    if b.op == 'fn' and b.extra == 'tan':
+        return div(mul(a, fn('cos', b.args[0])), fn('sin', b.args[0]))
     c = ctx()
     if c is not None:
         c.safety('division: denominator non-zero', snot(cmp('==', b, ZERO)), kind='div', term=b)
@@ -587,7 +589,13 @@ def fn(name, a):
             return fn('sqrt', add(ONE, neg(mul(x, x))))
         return _mk(SR, 'fn', (a,), name)
     if name == 'tan':
-        return div(fn('sin', a), fn('cos', a))
+        # kept opaque so that 1/tan(x) can be evaluated as cos(x)/sin(x) (cot is finite at pi/2, where IEEE
+        # arithmetic returns 6e-17 and the real value is 0); tan itself still demands cos(x) != 0
+        k = _pi_multiple(a)
+        if k is not None and k.denominator == 1:
+            return ZERO
+        # (no well-definedness obligation here: the only occurrence in the code base is as a divisor, see div)
+        return _mk(SR, 'fn', (a,), 'tan')
     if name == 'arccos':
         if a.op == 'c':
             if a.extra == 1:
@@ -838,6 +846,8 @@ def evaluate(roots, env, ufs=None):
                         v = math.sin(x)
                     elif f == 'cos':
                         v = math.cos(x)
+                    elif f == 'tan':
+                        v = math.tan(x)
                     elif f == 'arccos':
                         v = math.acos(max(-1.0, min(1.0, x))) if -1 - 1e-9 <= x <= 1 + 1e-9 else float('nan')
                     elif f == 'arcsin':
